@@ -94,13 +94,17 @@ func buildDesc(tracks []TrackSpec) *description.Session {
 				}},
 			})
 		case KindAAC:
+			rate := t.ClockRate
+			if rate == 0 {
+				rate = 44100
+			}
 			d.Medias = append(d.Medias, &description.Media{
 				Type: description.MediaTypeAudio,
 				Formats: []rtspformat.Format{&rtspformat.MPEG4Audio{
 					PayloadTyp: 96,
 					Config: &mpeg4audio.AudioSpecificConfig{
 						Type:          2,
-						SampleRate:    44100,
+						SampleRate:    rate,
 						ChannelConfig: 2,
 						ChannelCount:  2, //nolint:staticcheck
 					},
